@@ -815,6 +815,146 @@ def front_door(name, vi, auto):
     return None, None, headers
 
 
+# ------------------------------------------------------------------ X: faults while a body is being buffered
+# (seed C05-5a) a closable body raises while a pre-operation consumes it; the application catches the error and
+# serves the response anyway; after the server closes the returned iterable every close callback and the wrapped
+# iterable's own close must still have run exactly once.
+
+class Fault(Exception):
+    pass
+
+
+class FaultIter:
+    """closable iterator that raises on its k-th item: once (the item is then skipped) or every time it is reached"""
+
+    def __init__(self, items, k, persistent):
+        self.items, self.k, self.persistent = list(items), k, persistent
+        self.i = 0
+        self.fired = False
+        self.closed = 0
+
+    def __iter__(self):
+        return self
+
+    def __next__(self):
+        if self.i == self.k and (self.persistent or not self.fired):
+            self.fired = True
+            if not self.persistent:
+                self.i += 1
+            raise Fault("read error on item %d" % self.k)
+        if self.i >= len(self.items):
+            raise StopIteration
+        self.i += 1
+        return self.items[self.i - 1]
+
+    def close(self):
+        self.closed += 1
+
+
+X_ITEMS = [b"ab", "é", b"c"]
+X_PREOPS = ["get_data", "make_sequence", "calc", "add_etag", "freeze", "get_data-text", "stream-write", "iter-peek"]
+X_KS = [0, 1, 2, 3]     # 3 = never raises (control)
+
+
+def _x_preop(r, name):
+    if name == "get_data":
+        r.get_data()
+    elif name == "get_data-text":
+        r.get_data(as_text=True)
+    elif name == "make_sequence":
+        r.make_sequence()
+    elif name == "calc":
+        r.calculate_content_length()
+    elif name == "add_etag":
+        r.add_etag()
+    elif name == "freeze":
+        r.freeze()
+    elif name == "stream-write":
+        r.stream.write(b"z")
+    elif name == "iter-peek":
+        next(r.iter_encoded(), None)
+
+
+def fault_problem(k, persistent, preops, ncb, method, consume, dp, sti):
+    """-> (problem | None, detail)"""
+    it = FaultIter(X_ITEMS, k, persistent)
+    st, code = STATUSES[sti]
+    r = Response(it, status=st, direct_passthrough=dp)
+    calls = [0] * ncb
+    for i in range(ncb):
+        r.call_on_close(lambda i=i: calls.__setitem__(i, calls[i] + 1))
+    log = []
+    for name in preops:
+        try:
+            _x_preop(r, name)
+            log.append("ok")
+        except Fault:
+            log.append("fault")         # the application catches the read error and carries on
+        except RuntimeError:
+            log.append("runtime")       # direct_passthrough refuses implicit buffering: fine
+        except Exception as e:  # noqa: BLE001
+            return "exception-in-preop:" + type(e).__name__, (name, repr(e))
+    try:
+        app_iter, status, headers = r.get_wsgi_response(ENV[method])
+        if consume == "all":
+            try:
+                for _chunk in app_iter:
+                    pass
+            except Fault:
+                log.append("fault-while-serving")
+        if hasattr(app_iter, "close"):
+            app_iter.close()
+    except Exception as e:  # noqa: BLE001
+        return "exception-while-serving:" + type(e).__name__, (log, repr(e))
+    if any(c == 0 for c in calls):
+        return "callbacks-not-run", (log, calls)
+    if any(c > 1 for c in calls):
+        return "callbacks-run-twice", (log, calls)
+    if it.closed != 1:
+        return "iterable-close-count", (log, it.closed)
+    return None, (log, calls, it.closed)
+
+
+def x_cases(tier):
+    seqs = [(a,) for a in X_PREOPS] + [(a, b) for a in X_PREOPS for b in X_PREOPS]
+    if tier == "thorough":
+        seqs += [(a, b, c) for a in X_PREOPS[:5] for b in X_PREOPS[:5] for c in X_PREOPS[:5]]
+    for k in X_KS:
+        for persistent in (False, True):
+            for preops in seqs:
+                for ncb in (0, 1, 2):
+                    for method in ("GET", "HEAD"):
+                        for consume in ("nothing", "all"):
+                            for dp in (False, True):
+                                for sti in (3, 5):          # 200 and 204
+                                    yield (k, persistent, preops, ncb, method, consume, dp, sti)
+
+
+def run_x_unit(unit, R, tier):
+    _, lo, hi = unit
+    for case in itertools.islice(x_cases(tier), lo, hi):
+        R.ev()
+        try:
+            what, detail = fault_problem(*case)
+        except Exception as e:  # noqa: BLE001
+            what, detail = "harness-exception:" + type(e).__name__, repr(e)
+        R.use("x:k%d" % case[0], "x:persistent:%s" % case[1], "x:dp:%s" % case[6])
+        for name in case[2]:
+            R.use("x:preop:" + name)
+        if not what:
+            for ev in detail[0]:
+                R.use("x:log:" + ev)
+        R.nontrivial(("X", case))
+        R.outcome(("X", what))
+        if what:
+            R.violation("X:" + what.split(":")[0],
+                        {"kind": "X", "case": [case[0], case[1], list(case[2])] + list(case[3:]), "what": what,
+                         "detail": repr(detail)[:300]})
+    if lo == 0:
+        R.sample({"space": "X", "case": "item 1 raises once; get_data, make_sequence; GET; close",
+                  "result": repr(fault_problem(1, False, ("get_data", "make_sequence"), 1, "GET", "nothing", False, 3))})
+
+
 def run_f_unit(unit, R, tier):
     for name in FRONT_DOORS:
         for vi in range(len(F_VALUES)):
@@ -856,6 +996,9 @@ def units(tier):
         if i < len(b_units):
             out.append(b_units[i])
     out.append(("F",))
+    nx = sum(1 for _ in x_cases(tier))
+    for lo in range(0, nx, 2000):
+        out.append(("X", lo, lo + 2000))
     return out
 
 
@@ -864,6 +1007,8 @@ def run_unit(unit, R, tier):
         run_a_unit(unit, R, tier)
     elif unit[0] == "B":
         run_b_unit(unit, R, tier)
+    elif unit[0] == "X":
+        run_x_unit(unit, R, tier)
     else:
         run_f_unit(unit, R, tier)
 
@@ -882,6 +1027,9 @@ def finalize(R, tier):
     # every mutator must have refused a CR/LF value at least once
     need |= {"raised:" + o for o in MUTATORS if o not in REMOVERS}
     need |= {"door:" + d for d in FRONT_DOORS}
+    need |= {"x:k%d" % k for k in X_KS} | {"x:preop:" + n for n in X_PREOPS}
+    need |= {"x:persistent:True", "x:persistent:False", "x:dp:True", "x:dp:False", "x:log:ok", "x:log:fault",
+             "x:log:runtime", "x:log:fault-while-serving"}
     missing = need - R.used
     if missing:
         raise core.Broken(f"vacuity: never exercised {sorted(missing)[:10]}")
@@ -934,6 +1082,13 @@ def replay(rec):
         return bool(problem), (f"Headers built by add(): {list(state)}\nop {rec['op']}(key={rec['key']!r}, value="
                                f"{VALUES[rec['value']][1]!r}) raised={raised}\nstored afterwards: {list(new)} "
                                f"returned: {extra}\nproblem: {problem}")
+    if k == "X":
+        c = rec["case"]
+        case = (c[0], c[1], tuple(c[2])) + tuple(c[3:])
+        what, detail = fault_problem(*case)
+        return bool(what), (f"closable body {X_ITEMS} raising on item {case[0]} ({'every time' if case[1] else 'once'}), "
+                            f"pre-operations {case[2]} (errors caught), {case[3]} callbacks, {case[4]}, server consumes "
+                            f"{case[5]}, direct_passthrough={case[6]}, status={STATUSES[case[7]][0]}\n-> {what}: {detail}")
     if k == "F":
         problem, raised, headers = front_door(rec["door"], rec["value"], rec["auto"])
         return bool(problem), (f"front door {rec['door']} with {F_VALUES[rec['value']]!r}: raised={raised} "
